@@ -106,7 +106,7 @@ AlphaC08T == Base08 \cup Regions("T", {1}, {"TCi", "TCI", "TGc", "TGC", "TQa", "
 SysC08P == SysC08({"O", "P"})
 AlphaC08P == Base08 \cup Regions("P", {1}, {"PBb", "PBB", "PWs", "PWS", "PCf", "PCF"}) \cup Regions("P", {2}, {"PBb", "PBB"})
 SysC08V == SysC08({"O", "V"})
-AlphaC08V == Base08 \cup Regions("V", {1}, {"VSh", "VSH", "VAc", "VAC", "VMa", "VMA"}) \cup Regions("V", {2}, {"VSh", "VSH"})
+AlphaC08V == Base08 \cup Regions("V", {1}, {"VSh", "VSf", "VAc", "VAC", "VMa", "VMA"}) \cup Regions("V", {2}, {"VSh", "VSf"})
 SysC086 == SysC08({"O", "6"})
 AlphaC086 == Base08 \cup Regions("6", {1}, {"6C[", "6C]", "6U[", "6U]", "6Hw", "6HW"}) \cup Regions("6", {2}, {"6C[", "6C]"})
 SysC08K == SysC08({"O", "K"})
